@@ -19,6 +19,7 @@ def run(ctx):
               "hi+-1step, midpoint, type max/lowest, 0, +-inf, denorm_min, -0} crossed over the axes (complete when <= 4096 tuples, sampled "
               "otherwise).  The probe backend counts the queries it receives and returns an injective function of the coordinate: outside => "
               "default value and 0 queries, inside => the probe's value (obtained by querying the backend at least once).  backup<strided<array>> N 1..4 under ASan with "
-              "coordinates at, next to and far beyond the box (incl. SIZE_MAX).  non-trivial: some component equal or adjacent to a bound; "
+              "coordinates at, next to and far beyond the box (incl. SIZE_MAX); some cells hold NaN / -inf / -0 and are compared bit-wise with what was "
+              "stored; every second field is looked up through a dumped and reloaded copy; the field's dump is byte-identical after the lookups.  non-trivial: some component equal or adjacent to a bound; "
               "distinct = hash of (instantiation, box, coordinate)"),
         assumptions=["NaN coordinates excluded (as the property states)", "box membership evaluated in long double, exact for every value generated"])
